@@ -126,6 +126,7 @@ UNSAFE_ALLOWED = {
     'core::ptr::drop_in_place', 'core::ptr::mut_ptr::<impl *mut T>::write', 'core::ptr::write',
     'core::ptr::mut_ptr::<impl *mut T>::add', 'core::ptr::const_ptr::<impl *const T>::add',
     'core::ptr::copy_nonoverlapping', 'core::intrinsics::copy_nonoverlapping', 'core::ptr::copy',
+    'core::mem::maybe_uninit::MaybeUninit::<T>::assume_init',
 }
 TAME_SOURCES = {'core::mem::maybe_uninit::MaybeUninit::<T>::as_ptr', 'core::mem::maybe_uninit::MaybeUninit::<T>::as_mut_ptr',
                 'core::slice::<impl [T]>::as_mut_ptr', 'core::slice::<impl [T]>::as_ptr',
@@ -255,7 +256,7 @@ FORBIDDEN_SUBSTR = ('core::mem::forget', 'core::mem::manually_drop', 'core::ptr:
                     'core::mem::maybe_uninit::MaybeUninit::<T>::as_ptr',
                     'core::mem::maybe_uninit::MaybeUninit::<T>::as_mut_ptr',
                     'core::mem::maybe_uninit::MaybeUninit::<T>::zeroed',
-                    'core::mem::swap', 'core::mem::take')
+                    )
 
 
 def census(facts):
